@@ -3,10 +3,12 @@ package c04
 import (
 	"fmt"
 	"math/big"
+	"os"
 	"testing"
 
 	"github.com/idena-network/idena-go/blockchain/types"
 	"github.com/idena-network/idena-go/common"
+	"github.com/idena-network/idena-go/core/state"
 	"pgregory.net/rapid"
 
 	"verifharness/internal/evid"
@@ -69,8 +71,33 @@ func sumLedger(t *rapid.T, w *sim.World, img *sim.StateImage, where string) *led
 // one epoch pool on the validation-finishing block, nothing on an empty
 // non-epoch block).
 func TestIssuanceBounded(t *testing.T) {
+	issuanceBounded(t, sim.Options{MinActors: 3, MaxActors: 10, Replicas: 1, MaxReplicas: 4, Steps: 45, MaxTxPerStep: 6})
+}
+
+// Careers over several epochs: validations in quick succession, most identities passing with full marks, a mempool of
+// invitations, activations, ceremony transactions, payments, stake replenishments and terminations - so that invitees
+// collect their (locked, partly replenished) rewards at ages 1-3, are promoted, paid out, spend and terminate.
+func TestIssuanceBoundedCareers(t *testing.T) {
+	issuanceBounded(t, sim.Options{MinActors: 4, MaxActors: 8, Replicas: 1, MaxReplicas: 3, Steps: 110, MaxTxPerStep: 6,
+		OnlyTypes: []types.TxType{types.InviteTx, types.InviteTx, types.InviteTx, types.ActivationTx, types.ActivationTx, types.ActivationTx, types.SubmitAnswersHashTx, types.SubmitShortAnswersTx,
+			types.SubmitLongAnswersTx, types.EvidenceTx, types.SendTx, types.SendTx, types.KillTx, types.ReplenishStakeTx, types.DelegateTx,
+			// (a newbie has to make its required flips in every epoch to stay alive)
+			types.SubmitFlipTx, types.SubmitFlipTx, types.SubmitFlipTx, types.SubmitFlipTx, types.SubmitFlipTx, types.SubmitFlipTx, types.SubmitFlipTx, types.SubmitFlipTx},
+		Params: func(p *sim.Params) {
+			p.CeremonyIn, p.Interval, p.WellBehaved = 150, 420, 85
+			p.Profile = "v12"
+			// the inviters' stake decides the size of the invitation rewards (and of the invitee's share)
+			p.States[0], p.Stakes[0] = state.Human, sim.Dna(500)
+			for i := range p.States {
+				if p.Balances[i] == nil || p.Balances[i].Cmp(sim.Dna(300)) < 0 {
+					p.Balances[i] = sim.Dna(2000)
+				}
+			}
+		}})
+}
+
+func issuanceBounded(t *testing.T, opt sim.Options) {
 	rapid.Check(t, func(t *rapid.T) {
-		opt := sim.Options{MinActors: 3, MaxActors: 10, Replicas: 1, MaxReplicas: 4, Steps: 45, MaxTxPerStep: 6}
 		var prev *ledger
 		var prevEpochBlock uint64
 		events := map[string]bool{}
@@ -112,6 +139,44 @@ func TestIssuanceBounded(t *testing.T) {
 			} else {
 				evid.Count("block.proposed")
 			}
+			if blk.Header.Flags().HasFlag(types.ValidationFinished) {
+				s := r.ReadState()
+				if e := s.State.Epoch(); e >= 2 {
+					evid.Count(fmt.Sprintf("epoch.reached_%d", minU16(e, 4)))
+				}
+				if pre, err := r.AppState.Readonly(blk.Height() - 1); err == nil {
+					for _, a := range w.Actors {
+						was, is := pre.State.GetIdentity(a.Addr), s.State.GetIdentity(a.Addr)
+						if os.Getenv("C04_TRACE") != "" && was.State != state.Undefined {
+							fmt.Fprintf(os.Stderr, "epoch %d %s: %d -> %d required=%d made=%d qualified=%d stake=%v locked=%v repl=%v\n", s.State.Epoch(), a, was.State, is.State, was.RequiredFlips, len(was.Flips), was.QualifiedFlips, was.Stake, was.LockedStake(), was.ReplenishedStake())
+						}
+						if was.State == state.Newbie && is.State == state.Verified {
+							evid.Count("career.newbie_to_verified")
+							if lk := was.LockedStake(); lk != nil && lk.Sign() > 0 {
+								evid.Count("career.newbie_to_verified_with_locked_stake")
+								// locked share of the stake before the promotion, in tenths
+								share := new(big.Int).Div(new(big.Int).Mul(lk, big.NewInt(10)), nz1(was.Stake))
+								evid.Count(fmt.Sprintf("career.promoted_locked_share_tenths=%v", share))
+							}
+						}
+					}
+				}
+				for _, a := range w.Actors {
+					id := s.State.GetIdentity(a.Addr)
+					if id.Inviter != nil && id.State.NewbieOrBetter() {
+						evid.Count("career.validated_invitee")
+						if id.ReplenishedStake() != nil && id.ReplenishedStake().Sign() > 0 && id.LockedStake() != nil && id.LockedStake().Sign() > 0 {
+							evid.Count("career.validated_invitee_with_locked_and_replenished_stake")
+							if id.State.VerifiedOrBetter() {
+								evid.Count("career.promoted_invitee_with_locked_and_replenished_stake")
+							}
+						}
+						if id.LockedStake() != nil && id.LockedStake().Sign() > 0 {
+							evid.Count("career.validated_invitee_with_locked_stake")
+						}
+					}
+				}
+			}
 			for _, tx := range blk.Body.Transactions {
 				switch tx.Type {
 				case types.KillTx, types.KillInviteeTx, types.KillDelegatorTx:
@@ -134,4 +199,18 @@ func TestIssuanceBounded(t *testing.T) {
 			}
 		}
 	})
+}
+
+func minU16(a uint16, b uint16) uint16 {
+	if a < b {
+		return a
+	}
+	return b
+}
+
+func nz1(x *big.Int) *big.Int {
+	if x == nil || x.Sign() == 0 {
+		return big.NewInt(1)
+	}
+	return x
 }
